@@ -392,6 +392,16 @@ func (c *contentValidator) ValidateRequestAccept(ch *aclrecordproto.AclAccountRe
 	if !acceptIdentity.Equals(record.RequestIdentity) {
 		return ErrIncorrectIdentity
 	}
+	if record.Type != RequestTypeJoin {
+		// only a join request is approved by an accept record; a removal request is approved by removing
+		// the account, otherwise an admin could re-permission (and so demote) another admin through it
+		return ErrNoSuchRequest
+	}
+	if !c.aclState.Permissions(acceptIdentity).NoPermissions() {
+		// the requester got access another way meanwhile (e.g. was added directly as a guest):
+		// the stale request must not be used to change its permissions
+		return ErrInsufficientPermissions
+	}
 	if ch.Permissions == aclrecordproto.AclUserPermissions_Owner {
 		return ErrInsufficientPermissions
 	}
